@@ -31,7 +31,7 @@ from ..tok import S
 
 PID = "C20"
 COQ_HEADER = ("From Coq Require Import ZArith NArith List.\nImport ListNotations.\n"
-              "From SK Require Import lib.Tok model.C20_Model.\n")
+              "From SK Require Import lib.Tok model.C20_Model model.C20_Persist.\n")
 SHARD = 120
 IMPL_TIMEOUT = 1500
 COQ_TIMEOUT = 1500
@@ -52,7 +52,8 @@ EXPLANATION = ("Exhaustive sub-space: every network of <=2 (quick) / <=3 (thorou
                "compute / read / edit histories of one PetriAnalyzer on one hypergraph) is seeded random.")
 TRUSTED_BASE = [
     "Coq 8.16.1 kernel + vm_compute (no native_compute)",
-    "hand-written model coq/model/C20_Model.v tied to synkit/CRN/Petri/{structure,net}.py and synkit/CRN/Path/realizability.py by the per-run correspondence",
+    "hand-written models coq/model/C20_Model.v (synkit/CRN/Petri/{structure,net,analyzer}.py, synkit/CRN/Path/realizability.py) and coq/model/C20_Persist.v "
+    "(persistence.py) tied to the code by the per-run correspondence",
     "harness encoders harness/props/C20.py (labels -> rank in sorted order; places -> 3*s / 3*e+1 / 3*e+2; observables -> tok)",
     "hypergraph_to_bipartite (C16) is modelled only as far as C20 needs it: species sorted by label, one arc per (reaction, side, species) with role and stoich",
     "CPython dict / set / deque / itertools.combinations semantics",
@@ -61,7 +62,9 @@ TRUSTED_BASE = [
 ASSUMPTIONS = ["species labels do not start with '__ext__' / '__target__' (place names of the extended net would collide)",
                "stoichiometric coefficients are positive integers",
                "max_states, max_depth are non-negative integers"]
-TESTED_NOT_PROVED = ["siphon_persistence_condition (floating-point semiflows; only its siphon input is covered)",
+TESTED_NOT_PROVED = ["siphon_persistence_condition: the floating-point P-semiflow basis (scipy) is not modelled — the supports of its columns are oracle inputs of "
+                     "model/C20_Persist.v, computed by the harness from the basis the implementation computes with the code's threshold 1e-8; the set logic on top "
+                     "of them is modelled and proved (C20_persistence_condition) and compared on every net case for max_siphon_size None / k",
                      "find_siphons/find_traps on caller-supplied networkx graphs (modes bip/und) — compared per run, theorem is about CRNHyperGraph input",
                      ]
 
@@ -175,10 +178,39 @@ def _impl_net(case):
     k = case.get("k", n)
     cands = [set(c) for c in case.get("cands", [])]
     mins = ST._minimal_sets(cands)
+    from synkit.CRN.Petri.persistence import siphon_persistence_condition
+
+    def pv(**kw):
+        try:
+            return [bool(siphon_persistence_condition(crn, **kw))]
+        except ValueError:
+            return []
     return [1, [rank[x] for x in labels], [e_s, e_t], sip, trp,
             conv(ST.find_siphons(crn)), conv(ST.find_traps(crn)),
             conv(ST.find_siphons(crn, max_size=k)), conv(ST.find_traps(crn, max_size=k)),
-            [S(sorted(m)) for m in mins]]
+            [S(sorted(m)) for m in mins],
+            [pv(), pv(max_siphon_size=k)]]
+
+
+def _persist_supports(case):
+    """ORACLE INPUT of the persistence model: the supports (species ranks with |coefficient| > 1e-8, the threshold of
+    persistence.py) of the columns of the float P-semiflow basis the implementation computes for this input."""
+    import warnings
+    warnings.filterwarnings("ignore")
+    from synkit.CRN.Petri.semiflows import find_p_semiflows
+    from synkit.CRN.Props.utils import _species_order
+    from synkit.CRN.Hypergraph.conversion import _as_bipartite
+    crn = _crn_input(case, _build_H(case))
+    try:
+        G = _as_bipartite(crn)
+        _, labels, _ = _species_order(G)
+        Y = find_p_semiflows(G)
+    except ValueError:
+        return []
+    rank = {s: i for i, s in enumerate(_all_species(case))}
+    if Y.size == 0:
+        return []
+    return [[rank[labels[i]] for i in range(Y.shape[0]) if abs(float(Y[i, k])) > 1e-8] for k in range(Y.shape[1])]
 
 
 def _mk_net(case):
@@ -577,6 +609,12 @@ def _ana_replay(case):
                 yield op, "done", an, copy.deepcopy(net), computed, obj
             except ValueError:
                 yield op, "err", an, copy.deepcopy(net), computed, obj
+        elif op == "P":
+            try:
+                an.check_persistence()
+                yield op, "done", an, copy.deepcopy(net), computed, obj
+            except ValueError:
+                yield op, "err", an, copy.deepcopy(net), computed, obj
         elif op == "R":
             yield op, "read", an, copy.deepcopy(net), computed, obj
         elif op == "E":
@@ -602,8 +640,28 @@ def _impl_ana(case):
 
             def conv(sets):
                 return [] if sets is None else [[S(sorted(rank.get(x, 999) for x in st)) for st in sets]]
-            out.append([1, conv(an.siphons), conv(an.traps)])
+            out.append([1, conv(an.siphons), conv(an.traps), [] if an.persistence_ok is None else [bool(an.persistence_ok)]])
     return out
+
+
+def _ana_supports(obj, net):
+    """oracle input of a check_persistence / compute_all step: supports (ranks among the species of the network as it is now) of the
+    columns of the float P-semiflow basis the implementation computes for the analysed object at this moment"""
+    import warnings
+    warnings.filterwarnings("ignore")
+    from synkit.CRN.Petri.semiflows import find_p_semiflows
+    from synkit.CRN.Props.utils import _species_order
+    from synkit.CRN.Hypergraph.conversion import _as_bipartite
+    try:
+        G = _as_bipartite(obj)
+        _, labels, _ = _species_order(G)
+        Y = find_p_semiflows(G)
+    except ValueError:
+        return []
+    rank = {s_: i for i, s_ in enumerate(_ana_species(net))}
+    if Y.size == 0:
+        return []
+    return [[rank.get(labels[i], 999) for i in range(Y.shape[0]) if abs(float(Y[i, k])) > 1e-8] for k in range(Y.shape[1])]
 
 
 def impl(case):
@@ -640,9 +698,10 @@ def coq_case(case):
         if case.get("mode") == "und" and _has_catalyst(case):
             return None
         rx = clist([cpair(_cside(l, rank), _cside(r, rank)) for l, r in case["rxns"]])
-        return "run_net %s %s %s %s %s %s" % (cnat(n), rx, cbool(case.get("mode") == "und"), cnat(case.get("k", n)),
-                                             clist([clist([cnat(i) for i in c]) for c in case.get("cands", [])]),
-                                             clist([cnat(i) for i in _species_insertion_order(case, n)]))
+        return "run_net_p %s %s %s %s %s %s %s" % (cnat(n), rx, cbool(case.get("mode") == "und"), cnat(case.get("k", n)),
+                                                  clist([clist([cnat(i) for i in c]) for c in case.get("cands", [])]),
+                                                  clist([cnat(i) for i in _species_insertion_order(case, n)]),
+                                                  clist([clist([cnat(i) for i in sup]) for sup in _persist_supports(case)]))
     if t == "petri" and case.get("rounds"):
         terms = []
         cum = []
@@ -695,19 +754,30 @@ def coq_case(case):
         net0 = cnetw(net)
         nxt = 1
         ops = []
+        # the supports of the semiflow basis are read off the REAL object at the moment of each check (the basis of a kernel of
+        # dimension > 1 depends on the object's own node / column order): the history is replayed here once more
+        live = _ana_replay(case)
+
+        def csup(sup):
+            return clist([clist([cnat(i) for i in t_]) for t_ in sup])
         for op in case["ops"]:
-            if op == "C":
-                ops.append("AnCompute")
+            _, _, _, snap, _, obj = next(live)
+            if op == "C" and case.get("use_all") and snap["rxns"]:
+                ops.append("PAll %s" % csup(_ana_supports(obj, snap)))
+            elif op == "C":
+                ops.append("PBase AnCompute")
+            elif op == "P":
+                ops.append("PCheck %s" % csup(_ana_supports(obj, snap)))
             elif op == "R":
-                ops.append("AnRead")
+                ops.append("PBase AnRead")
             else:
                 st = case["stages"][nxt]
                 _ana_apply_snapshot(net, st if (st and isinstance(st[0][0], str)) else [["add", l, r] for l, r in st],
                                     keep_orphans=case.get("gmode") == "bip")
                 nxt += 1
-                ops.append("AnEdit %s" % cnetw(net))
+                ops.append("PBase (AnEdit %s)" % cnetw(net))
         k = case.get("k")
-        return "run_ana %s %s %s" % ("None" if k is None else "(Some %s)" % cnat(k), net0, clist(ops))
+        return "run_anap %s %s %s" % ("None" if k is None else "(Some %s)" % cnat(k), net0, clist(ops))
     if t == "hist":
         sp = sorted(set(case["species"]))
         rank = {s: i for i, s in enumerate(sp)}
@@ -1147,7 +1217,16 @@ def _oracle_ana(case):
             mins = {x for x in sets if not any(y < x for y in sets)}
             res.append({x for x in mins if k is None or len(x) <= k})
         return res
+    fresh_persist = None          # verdict of a FRESH evaluation on a copy of the object, taken at the last successful check
     for i, (op, kind, an, net, computed, H) in enumerate(_ana_replay(case)):
+        if kind == "done" and (op == "P" or (op == "C" and case.get("use_all") and net["rxns"])):
+            import copy as _copy
+            from synkit.CRN.Petri.persistence import siphon_persistence_condition as _spc
+            fresh_persist = [bool(_spc(_copy.deepcopy(H), max_siphon_size=k))]
+        if op == "R" and (([] if an.persistence_ok is None else [bool(an.persistence_ok)]) != (fresh_persist or [])):
+            fails.append(dict(clause="analyzer-history-persistence",
+                              detail="call %d of %r, edit stages %r: persistence_ok reads %r; a fresh evaluation on the network as it was at the last "
+                                     "check_persistence / compute_all gave %r" % (i, case["ops"], case["stages"][1:], an.persistence_ok, fresh_persist)))
         if case.get("gmode") == "bip":
             have, have_sp = _graph_network(H)
             have = [(list(a), list(b)) for a, b in have]
@@ -1205,8 +1284,8 @@ def oracle(case):
 def nontrivial(case, obs):
     t = case["t"]
     if t == "ana":
-        reads = [repr(a) for a in obs if a[0] == 1 and (a[1] or a[2])]
-        return len(set(reads)) >= 2          # the reported sets changed after an edit + compute
+        reads = [repr(a) for a in obs if a[0] == 1 and (a[1] or a[2] or (len(a) > 3 and a[3]))]
+        return len(set(reads)) >= 2          # the reported sets / the persistence verdict changed after an edit + compute / check
     if t == "hist":
         # a scaled search that had to go beyond k = 1 (or failed) followed by a later is_realizable / certificate call,
         # or at least two answered searches with different answers
@@ -1912,7 +1991,10 @@ def gen_histories(n, rng):
 
 
 ANA_PATTERNS = [["R", "C", "R", "E", "R", "C", "R"], ["C", "E", "C", "R"], ["C", "R", "E", "E", "R", "C", "R"], ["C", "E", "R", "C", "R", "C", "R"],
-                ["C", "R", "E", "C", "R", "E", "C", "R"]]
+                ["C", "R", "E", "C", "R", "E", "C", "R"],
+                # with check_persistence ("P"): the stored verdict must be the one of the network at the last check
+                ["P", "R", "E", "R", "P", "R"], ["C", "P", "R", "E", "P", "R", "C", "R"], ["R", "P", "E", "C", "R", "P", "R"],
+                ["P", "E", "P", "R", "E", "R"]]
 
 
 def _ana_edit_stage(rng, net, more, keep_orphans=False):
@@ -2028,7 +2110,7 @@ def gen_cases(tier, rng):
     return cases
 
 
-LEVEL_TEXT = ("Machine-checked proof (Coq, 17 theorems, all closed under the global context) over an executable, structure-following model of "
+LEVEL_TEXT = ("Machine-checked proof (Coq, 20 theorems, all closed under the global context) over an executable, structure-following model of "
               "structure.py / net.py / realizability.py: (1) the siphon and trap index predicates equal the Petri-net definitions for every network "
               "and every species subset; (2) _minimal_sets returns exactly the inclusion-minimal candidates for every candidate list; (3) find_siphons / "
               "find_traps report exactly the minimal non-empty siphons / traps (for every max_size); (4) enabled <=> marking covers the reactants, "
@@ -2038,7 +2120,8 @@ LEVEL_TEXT = ("Machine-checked proof (Coq, 17 theorems, all closed under the glo
               "reload in any order): after every history the object holds the flow loaded last, its net and markings are those built from that "
               "flow, a stored certificate of a plain search is a correct firing sequence of that flow, and every answer equals the answer of a fresh object "
               "(history independence); a PetriAnalyzer kept while its network is edited always holds exactly the siphons / traps of the network "
-              "as it was at the last successful compute (never an earlier result); (8) completeness within the bounds, on the pathway itself (C20_realizable_complete): if some ordering fires each edge flow times, "
+              "as it was at the last successful compute (never an earlier result), and its persistence_ok field exactly the verdict for the network as it was at the last "
+              "successful check_persistence / compute_all; (8) completeness within the bounds, on the pathway itself (C20_realizable_complete): if some ordering fires each edge flow times, "
               "covered at every step, back to zero, the (fired counts, species marking) states reachable by covered firings within the flow fit into "
               "max_states and the sum of the positive flows is at most max_depth, then is_realizable returns a sequence — via the converse simulation "
               "(an ordering of the pathway is a firing sequence of the extended net the code builds), one supply token per firing, and the search-level "
@@ -2047,5 +2130,5 @@ LEVEL_TEXT = ("Machine-checked proof (Coq, 17 theorems, all closed under the glo
               "enabled()/fire() calls of the search.")
 LEVEL_NOTE = ("Trusted: Coq kernel + vm_compute; the hand-written model and the harness encoders; CPython dict/set/deque/itertools semantics. "
               "Modelled, not verified: networkx graph storage; hypergraph_to_bipartite only as far as C20 reads it; caller-supplied nx graphs "
-              "(directed / undirected) are covered by the correspondence only; siphon_persistence_condition (floating-point semiflows) is not "
-              "covered beyond its siphon input.")
+              "(directed / undirected) are covered by the correspondence only; siphon_persistence_condition is modelled with the supports of the "
+              "floating-point semiflow basis as oracle inputs (theorem: the verdict is the set condition over the minimal siphons).")
